@@ -62,6 +62,11 @@ TrAddFault == /\ Is("addfault")
                  \/ Ev.r = "ok" /\ Add(Ev.mb, Ev.id, Ev.meta, Ev.size) /\ SnapOK(boxes')
               /\ Mark
 
+(* the mailbox is listed while no file can be opened: an error, or the right listing - never a wrong one *)
+TrListFault == /\ Is("listfault")
+               /\ (Ev.r # "ok") \/ (Ev.msgs = ListRes(Ev.mb))
+               /\ UNCHANGED svars /\ SnapOK(boxes) /\ Mark
+
 TrSeen == /\ Is("seen") /\ Ev.r = ByIdRes(Ev.mb, Ev.id)
           /\ MarkSeen(Ev.mb, Ev.id)
           /\ SnapOK(boxes')
@@ -180,7 +185,7 @@ TrSites == /\ Is("sites")
 (* C10: every following operation runs in a newly started process *)
 TrRestart == /\ Is("restart") /\ Restart /\ SnapOK(boxes) /\ Mark
 
-TraceNext == \/ TrAddFault \/ TrDelivered \/ TrSites \/ TrRestart \/ TrCrash \/ TrEvents \/ TrReset \/ TrAdd \/ TrSeen \/ TrRemove \/ TrPurge \/ TrScan
+TraceNext == \/ TrListFault \/ TrAddFault \/ TrDelivered \/ TrSites \/ TrRestart \/ TrCrash \/ TrEvents \/ TrReset \/ TrAdd \/ TrSeen \/ TrRemove \/ TrPurge \/ TrScan
              \/ TrGet \/ TrLatest \/ TrList \/ TrVisit \/ TrReopen \/ TrProbe
 
 TraceSpec == TraceInit /\ [][TraceNext]_tvars
